@@ -65,6 +65,14 @@ def rule_P(ctx):
     """P1-P4 as one rule object (imported by C01: the order of the conditional path is drawn from, and scored
     with, this distribution)."""
     prog = ctx.prog
+    # the counting terms are built from log_factorial / log_binomial_coefficient / log_multinomial_coefficient
+    # (same rule object as C05.E2 / M; runs wherever P1-P4 run)
+    from ..formula import imported
+    from . import C05
+
+    if getattr(ctx, "_own_rules", None) is None:
+        ctx._own_rules = {"P1", "P2", "P3", "P4"} | set(ctx.rule_min)
+    imported(ctx, C05.rule_E2_M)
     ctx.rule("P1", "sampler primitives pair with counting terms: shuffle(L) <-> log(len L)!, interleave <-> multinomial / binomial, sizes from the same collections", 3)
     ctx.rule("P2", "descendants first: own data appended after the interleaving of the children's orders; all children / roots; outliers interleaved once at top level", 2)
     ctx.rule("P3", "bridge shuffle: sentinel i repeated len(lists[i]) times, shuffled by the passed generator, elements popped from the front", 2)
